@@ -29,6 +29,7 @@ var Includes = map[string][]string{
 	"C15": {"C16.fresh-per-call"},
 	"C22": {"C01.encoder-state"},
 	"C14": {"C10.dispatch"},
+	"C09": {"C06.retained-bytes", "C16.reset"},
 	"C26": {"C05.array-index"},
 }
 
